@@ -74,6 +74,7 @@ def module_interp(program: Program):
     mods = {
         "itertools": Obj("itertools", zip_longest=BUILTINS["zip_longest"], chain=BUILTINS["chain"], islice=BUILTINS["islice"]),
         "functools": Obj("functools", wraps=BUILTINS["wraps"]),
+        "numpy": _np_stub(),
         "copy": Obj("copy", copy=BUILTINS["copy_copy"], deepcopy=BUILTINS["copy_copy"]),
     }
     for st in tree.body:
@@ -551,3 +552,16 @@ def category_rule(rep, program: Program, prop: str, rule_id: str, title: str, si
             r.violate(prop, f"ChainState-protocol:{key}", f"{msg}; shortest history: {hist}", node=None, file=str(st.path), history=hist)
     r.inst({"decided by": "protocol closure", "groups": len(recs), "configurations": sum(rec["configurations"] for rec in recs), "categories": sorted(categories), "findings": n})
     return r
+
+
+def _np_stub():
+    """NumPy as far as mici/states.py uses it: array tokens are `np.ndarray` instances; two of them may share memory
+    when one is (a view of) the other."""
+    from ..absexec import ArrayType, Obj as _Obj, Token as _Token, _builtin as _b
+
+    def may_share(a, b):
+        if not (isinstance(a, _Token) and isinstance(b, _Token)):
+            return False
+        return a is b or a._attrs.get("view_of") is b or b._attrs.get("view_of") is a
+
+    return _Obj("numpy", ndarray=ArrayType, may_share_memory=_b(may_share), shares_memory=_b(may_share))
